@@ -43,6 +43,7 @@ type Contract struct {
 	Requires []Clause
 	Assume   []Clause
 	Cases    []Clause
+	Ghosts   [][2]string
 	AssumePost []Clause
 	Lets     []LetDef
 	Ensures  []Clause
@@ -480,6 +481,13 @@ func (cs *ContractSet) parseLines(lines []string, file, pkgPath, schemaDir strin
 			var c Clause
 			c, err = mkClause(tags, rest)
 			cur.Requires = append(cur.Requires, c)
+		case "ghost":
+			// ghost NAME TYPE: a universally quantified specification variable (not a program variable)
+			f := strings.Fields(rest)
+			if len(f) != 2 {
+				return fmt.Errorf("%s: ghost NAME TYPE", where)
+			}
+			cur.Ghosts = append(cur.Ghosts, [2]string{f[0], f[1]})
 		case "casesplit":
 			// casesplit E1 | E2 | ...: every ensures obligation is proved once per case and once for "none of them"
 			for _, part := range splitTop(rest, "|") {
